@@ -275,6 +275,9 @@ example :
     (run cfg {} [.connect bad, .publish 1, .other, .connect good]).1.phase = .rejected ∧
     (run cfg {} [.connect bad, .publish 1, .other, .connect good]).2.any Eff.touchesBroker = false ∧
     (run cfg {} [.connect bad, .publish 1, .connect good, .hangup]).1.phase = .closed ∧
+    (run cfg {} [.connect { good with v := 5, authMethod := some "" }]).1.phase = .rejected ∧
+    (run cfg {} [.connect { good with v := 5, authMethod := some "", user := "", pass := "", userFlag := false, passFlag := false }]).2
+      = [.connack 5 0x80, .statPkt] ∧
     (run cfg {} [.publish 0]).1.phase = .rejected := by
   decide
 
